@@ -123,14 +123,17 @@ def extract(units, extra_roots=(), extra_args=()):
             jobs.append((u, out))
     if jobs:
         with ThreadPoolExecutor(max_workers=int(os.environ.get('VERIF_JOBS', '16'))) as ex:
-            futs = [ex.submit(_extract_one, u, o + '.tmp', roots, extra_args) for u, o in jobs]
+            # checks of different properties may extract the same unit at the same time: every process writes
+            # its own temporary file and publishes it with an atomic rename
+            sfx = '.tmp.%d' % os.getpid()
+            futs = [ex.submit(_extract_one, u, o + sfx, roots, extra_args) for u, o in jobs]
             for (u, o), f in zip(jobs, futs):
                 unit, rc, err = f.result()
-                if rc != 0 or not os.path.exists(o + '.tmp'):
-                    if os.path.exists(o + '.tmp'):
-                        os.remove(o + '.tmp')
+                if rc != 0 or not os.path.exists(o + sfx):
+                    if os.path.exists(o + sfx):
+                        os.remove(o + sfx)
                     raise AnalysisBroken('unit does not parse: %s\n%s' % (unit, err))
-                os.rename(o + '.tmp', o)
+                os.replace(o + sfx, o)
     return outs
 
 
